@@ -23,7 +23,7 @@ import (
 	"syscall"
 )
 
-//go:embed shim/vos/*.go shim/vtime/*.go shim/vioutil/*.go
+//go:embed shim/vos/*.go shim/vtime/*.go shim/vioutil/*.go shim/vfilepath/*.go
 var shimFS embed.FS
 
 //go:embed all:inmodule
@@ -143,7 +143,7 @@ func (b *Build) copyEmbedded(efs embed.FS, root, dst string) error {
 	})
 }
 
-var seamMap = map[string]string{"os": "vos", "time": "vtime", "io/ioutil": "vioutil"}
+var seamMap = map[string]string{"os": "vos", "time": "vtime", "io/ioutil": "vioutil", "path/filepath": "vfilepath"}
 
 func (b *Build) copyTree(dst string, rewrite bool) error {
 	return filepath.WalkDir(b.Repo, func(p string, d fs.DirEntry, err error) error {
